@@ -1,3 +1,4 @@
 import SupervisorModel.Basic.DriverKit
 import SupervisorModel.Model.Rotate
-def main : IO Unit := Sv.driverMain [("rotate", Sv.Rotate.runCase)]
+import SupervisorModel.Model.LogFan
+def main : IO Unit := Sv.driverMain [("rotate", Sv.Rotate.runCase), ("logfan", Sv.LogFan.runCase)]
